@@ -9,17 +9,17 @@ def commits():
 TB="x/tools go/ssa (Go semantics), the nriverif VC generator, z3 5.1.0 / cvc5 1.0.3 / z3 4.8.12; library models and every trusted/assumed contract are listed in the evidence file under assumptions"
 claimed={
  "C01": dict(text="Deductive proof, for all inputs and any number of plugins per call, that the ownership ledger (27 claim + 5 clear functions, 32 wrappers, ownersFor) grants an item to at most one plugin and that every creation-path adjust* function under contract returns an error when a set item is already owned and never changes the reply for it; obligations are generated from the SSA of the real functions and discharged by SMT solvers.",
-             note="Functions under contract so far: ledger, adjustCgroupsPath/OomScoreAdj/Args/CDIDevices/Rlimits/Resources. adjustAnnotations/Mounts/Devices/Env, update path and the request loops are not yet under contract (listed in DESIGN.md). "+TB, ref="5 C01"),
+             note="Functions under contract: the ledger, adjustAnnotations/Mounts/Devices/CgroupsPath/OomScoreAdj/Args/CDIDevices/Rlimits/Resources and updateResources. adjustEnv is not under contract; for mounts/devices the claim is: success implies no set item was owned unless the same response removes it, and an owner that appears is the calling plugin (DESIGN.md S3/S4). result.apply is a trusted frame. "+TB, ref="5 C01"),
  "C02": dict(text="Deductive proof that claims succeed whenever the item is free (no spurious conflicts), that an error implies a real earlier owner, and that a removal marker releases the claim, for the functions under contract.",
-             note="Same function set as C01. "+TB, ref="5 C02"),
- "C03": dict(text="Deductive proof of the merge postconditions (reply' = merge(reply, plugin response)) of the creation-path functions under contract: scalars, args, hooks, rlimits, CDI devices, all resource fields, hugepages, unified.",
-             note="List families (mounts, devices, env), annotations, and the composition with the OCI generator are not yet covered. "+TB, ref="5 C03"),
+             note="Same function set as C01. For annotations, mounts and devices a removal (with or without a set) releases the earlier claim; for mounts/devices this uses the ledger/list representation invariant, which is proved preserved and assumed for the initial (empty) state. adjustEnv is not covered. "+TB, ref="5 C02"),
+ "C03": dict(text="Deductive proof of the merge postconditions (reply' = merge(reply, plugin response)) of the creation-path functions under contract: scalars, args, hooks, rlimits, CDI devices, all resource fields, hugepages, unified, annotations (set wins over removal, lone removal deletes and is forwarded), and for mounts/devices: every set entry is in the reply, an earlier entry removed by the response is gone, a removal without a set is forwarded to the runtime.",
+             note="Environment variables (adjustEnv) are not covered; for mounts/devices the clause that untouched entries are kept is not claimed (solvers return unknown); the composition with the OCI generator is argued from C13, not proved as one theorem. "+TB, ref="5 C03"),
  "C04": dict(text="Deductive proof that the container view shown to later plugins is updated exactly like the reply for the functions under contract.",
-             note="Same function set as C03. "+TB, ref="5 C04"),
+             note="Same function set as C03; for mounts/devices: every set entry is in the view, no nil entry, and nothing the response removes or sets survives the filter (loop invariant). adjustEnv is not covered. "+TB, ref="5 C04"),
  "C05": dict(text="Deductive proof of the update collection: getContainerUpdate (one entry per target id, self-update during creation rejected, own container kept out of the list), updateResources (every field claimed from the ledger, staged on a copy, committed to the entry and - for the container being updated - to the request only if every claim succeeded; on failure nothing is committed), result.update (an ignore-failure update never fails the request; the collected state stays well formed), the three response constructors (own entry appended last) and the collect* constructors (normalised request, empty collection).",
              note="result.apply/adjust are still used through a trusted write-set frame by the request loops, so the preconditions of result.update (a plugin's update shares no object with the collected state) are assumed there, not proved. Claims of a conflicting ignore-failure update stay in the ledger (observation, DESIGN.md). "+TB, ref="5 C05"),
  "C14": dict(text="Deductive proof of the optional-value constructors String/Int32/UInt32/Int64/UInt64/Bool: nil maps to unset, a value of the wrapper's own type to exactly that value in a fresh wrapper.",
-             note="OCI round trips, Copy, event-mask print/parse not yet covered. "+TB, ref="5 C14"),
+             note="Also under contract: OptionalInt.Get, LinuxResources.Copy, DupStringSlice, Hook/Mount/LinuxDevice ToOCI, LinuxResources.ToOCI/FromOCILinuxResources, CheckPluginIndex, EventMask.Set. Event-mask print/parse and the remaining FromOCI directions are not covered. "+TB, ref="5 C14"),
 }
 claimed.update({
  "C06": dict(text="Deductive proof that every request/event dispatch loop (StateChange and its nine wrappers, UpdatePodSandbox, Create/Update/StopContainer) holds the adaptation lock exactly once around all relays, calls the relay of each plugin of the sorted list once and in slice order until a veto, passes the request unchanged, and prunes closed plugins; that each relay calls the implementation exactly when the event is subscribed; that sortPlugins orders by index (sort.Slice model) and that string order equals numeric order for two-digit indices (lemma).",
@@ -29,13 +29,13 @@ claimed.update({
  "C09": dict(text="Deductive proof of plugin.synchronize (slice bounds within the remaining lists, termination measure, the final accepted message covers the rest of both lists, failure closes the plugin), recalcObjsPerSyncMsg (bounds, strict progress, non-zero counts; real arithmetic for the float scaling) and the stub's collectSync/deliverSync (one handler call with the concatenation of all collected chunks).",
              note="The concatenation of the intermediate accepted chunks is argued inductively from the loop invariant (see DESIGN.md); transport size accounting inside ttrpc is out of scope. "+TB, ref="5 C09"),
  "C10": dict(text="Deductive proof of the write-side framing (mux.write: each iteration writes one header (id, size) and exactly the next size<=max bytes of the buffer under a single hold of the write lock; loop ends when the buffer is consumed) and of mux.Open (same id gives the same connection; queue capacity is the configured length).",
-             note="The reader goroutine and conn.Read are not yet under contract; scheduler fairness and the bytes inside the trunk are out of scope. "+TB, ref="5 C10"),
+             note="mux.reader (lock discipline, fail-stop) and conn.Read (a message that fits is delivered whole and its length returned; one that does not fit is an error) are under contract; payload routing by byte contents, scheduler fairness and the bytes inside the trunk are out of scope. "+TB, ref="5 C10"),
  "C11": dict(text="Deductive proof of the fail-stop typestate: error latched once (setError/error), doneC channels closed only inside sync.Once (no double close), mux.Close closes every connection, the trunk and doneC exactly once and is idempotent, conn.Close takes the connection lock without re-entrance, a partial trunk write latches the error and closes the multiplexer.",
              note="'Returns promptly' (liveness) and the reader goroutine are not covered (restricted claim). "+TB, ref="5 C11"),
  "C15": dict(text="Deductive proof that setupHandlers sets handler k to the bound method of the plugin and subscription bit k exactly when the plugin implements interface k (plus a bit-vector lemma for the mask), that Configure clamps/rejects masks as documented and reports the result once, and that every request/event is dispatched to exactly the handler for it with the message's objects and returns the handler's results unchanged.",
              note="Interface satisfaction of the plugin's dynamic type is an uninterpreted predicate per interface. "+TB, ref="5 C15"),
  "C17": dict(text="Deductive proof of RegisterPlugin (empty name or non-two-digit index rejected and reported on the registration channel once; otherwise identity recorded), configure (mask validation for all 2^32 masks; call carries a deadline) and CheckPluginIndex.",
-             note="plugin.start, the accept loop and the socket directory mode are not yet under contract; timeouts as wall-clock are out of scope. "+TB, ref="5 C17"),
+             note="plugin.start is under contract (a refused registration or a connection lost before it closes - and for a launched plugin kills - the plugin and never activates it); the socket directory mode and timeouts as wall-clock are out of scope. "+TB, ref="5 C17"),
  "C19": dict(text="Deductive proof that an unsolicited update reaches the runtime's update callback exactly once, with the plugin's list, under the adaptation lock (the same lock that serialises all requests), that results are passed back unchanged, and that an unstarted stub returns ErrNoService without calling the runtime.",
              note="Mutual exclusion follows from sync.Mutex semantics (trusted). "+TB, ref="5 C19"),
 })
